@@ -19,10 +19,16 @@ model's queue follows the implementation's order inside groups of equal
 probability (pop_follow, proved to meet the heap contract for every order); items
 are matched by (base-structure line, pt, base_prob, prob) - the line is followed
 in the implementation by object identity (see run_session), because two
-identical grammar.txt lines give items that are otherwise indistinguishable."""
+identical grammar.txt lines give items that are otherwise indistinguishable.
+A last stage ("named sessions", below) runs the real pcfg_guesser.main() of a scratch
+copy of the code tree (harness/main_driver.py): two or three sessions of one ruleset
+under session names of one confusable family, each quit at places of its own inside
+Markov levels and resumed with --load while the other sessions are interrupted in
+between; each session by itself must emit the uninterrupted run piece by piece."""
 import json
 import os
 import pickle
+import shutil
 import threading
 from collections import Counter
 
@@ -39,6 +45,9 @@ TRUSTED = ["pickle.dump/load is the identity on int, bool, list of [str,int,int]
            "the key-press thread is replaced by an inert stand-in that never reads stdin; the quit is pcfg.should_exit set from the "
            "print_guess wrapper (for a loop that polls thread liveness the stand-in's is_alive() is `not should_exit`); thread "
            "timing and stdin are C12's subject",
+           "named-sessions stage: harness/main_driver.py runs pcfg_guesser.main() of a scratch copy of the code tree with print_guess, the "
+           "queue class and the threading module of cracking_session replaced from outside (as above); which names denote the SAME session "
+           "(e.g. 'run' and 'run.sav') is not judged: such pairs are never put into one history",
            "session shards: the model's queue is pop_follow over the pop order the implementation showed (only the order inside groups "
            "of equal probability is taken from the implementation; C15_follow_pop_ok: it meets the heap contract for every order)",
            "translator tie of the session loop: harness/translate_session.py (ast -> Gallina, fail closed; accepted subset and what it does not model in its docstring) and the meaning coq/theories/SessionRt.v gives to `while`, break, try/except OSError, `if limit:` and `x is None`; every collaborator of CrackingSession.run / _save_session (queue, grammar object with quit flag and OMEN counters, save configuration and file, keyboard thread) is an operation on an abstract world: the translated text equals SessionModel.m_run for every world (C12_source_run_is_model), and the property theorems instantiate the world with the collaborators of Session.v (SessionModel.sworld) or constrain it by a contract (quiet_world)"]
@@ -538,6 +547,352 @@ def explore(ctx, rs, om, buckets, sc, dist, cases, samples, max_cuts, two_cases,
     return vio, evaluations, nontrivial
 
 
+
+# ---------------------------------------------------------------- named sessions through the real pcfg_guesser.main()
+#
+# Everything above drives CrackingSession with a save-file path the harness chose.  Which files a session NAMED on the
+# command line reads and writes (<name>.sav, the OMEN position file derived from it) is decided by pcfg_guesser.main() and
+# PcfgGrammar; this stage runs the real main() (harness/main_driver.py, a scratch copy of the code tree) on histories that
+# interleave two or three sessions of one ruleset under names an implementation could confuse, each quit inside Markov
+# levels at its own positions and resumed with --load after the OTHER sessions were interrupted.  Every session on its own
+# must emit the uninterrupted run: the restored part of each resumed run is the remainder of ITS interrupted level.
+
+NAMED_RULESETS = (10, 60)       # quick, thorough
+NAME_STEMS = ["night", "run", "crack", "rockyou", "s", "ab", "my.list", "Wörter"]
+
+
+def name_family(rng):
+    """(kind, [distinct names]): session names that differ only in a tail, an extension-like suffix, dots, spaces, case or
+    non-ASCII letters - whatever a rule deriving file names from the session name might drop or fold."""
+    stem = rng.choice(NAME_STEMS)
+    kind = rng.choice(["plain", "tail", "tail", "dotted-tail", "dotted-tail", "short-tail", "multi-dot", "ext", "prefix",
+                       "edge-dots", "space", "unicode", "case", "mixed"])
+    if kind == "mixed":
+        names = []
+        for _ in range(3):
+            names.append(rng.choice(name_family(rng)[1]))
+        return kind, list(dict.fromkeys(names))
+    if kind == "plain":
+        names = rng.sample(["alpha", "beta", "gamma", stem + "A", stem + "B", stem + "_2", stem + "-3", "default_run"], 3)
+    elif kind in ("tail", "dotted-tail"):
+        sep = "." if kind == "dotted-tail" else rng.choice(["", "_", "-", " ", ".v", "#"])
+        width = rng.choice([4, 4, 4, 3, 5, 8])
+        base = "".join(rng.choice("0123456789") for _ in range(width))
+        tails = {base}
+        while len(tails) < 3:
+            k = rng.randint(1, min(3, width))                 # the last k characters differ
+            t = base[:width - k] + "".join(rng.choice("0123456789abc") for _ in range(k))
+            tails.add(t)
+        names = [stem + sep + t for t in sorted(tails)]
+    elif kind == "short-tail":
+        sep = rng.choice([".", ".", "_", ""])
+        names = [stem + sep + t for t in rng.sample(["1", "2", "10", "b", "c", "bc", "bd", "v1", "v2", "old", "new"], 3)]
+    elif kind == "multi-dot":
+        names = rng.sample(["a.b.c", "a.b.d", "a.c.b", "a..b", "a.b", "a.b.c.d", stem + ".2024.a", stem + ".2024.b", stem + ".2025.a"], 3)
+    elif kind == "ext":
+        other = rng.choice([x for x in NAME_STEMS if x != stem])
+        names = rng.sample([stem + ".sav", other + ".sav", stem + ".omn", other + ".omn", stem + ".sav.sav", stem + ".txt",
+                            stem + ".save", stem + ".sa", stem + ".savx", other + ".SAV"], 3)
+    elif kind == "prefix":
+        names = rng.sample([stem, stem + "x", stem + "xy", stem + "xyz", stem + "xyzw", stem + "xyzwv", stem[:1], stem[:2] + "_"], 3)
+    elif kind == "edge-dots":
+        names = rng.sample(["." + stem, stem + ".", stem + "..", ".." + stem, "." + stem + ".", stem + ". ", "...", "...."], 3)
+    elif kind == "space":
+        names = rng.sample([stem + " one", stem + " two", stem + "  one", " " + stem, stem + " ", stem + " 2024", stem + " 2025",
+                            "my run", "my run.2", "my run.3"], 3)
+    elif kind == "unicode":
+        names = rng.sample(["сессия.1", "сессия.2", "сессия", "nuit.été", "nuit.étè", "nuit.ete", "日本.語一", "日本.語二",
+                            "ночь.2024", "ночь.2025", "naïve", "naïvé", "ß.1", "ss.1"], 3)
+    else:   # case
+        names = rng.sample([stem + ".Sav", stem + ".SAV", stem + ".one", stem + ".One", stem.upper() + ".one", stem + ".ONE", stem.capitalize()], 3)
+    return kind, list(dict.fromkeys(names))
+
+
+def usable_names(names, probe_dir):
+    """The names the file system can tell apart as <name>.sav files; no name is another name plus '.sav' / '.omn' (whether
+    '-s run.sav' means the session 'run' is not this property's business), none starts with '-' (an option to argparse)."""
+    ok = []
+    for n in names:
+        if n.startswith("-") or "/" in n or "\x00" in n or any(n == m + e or m == n + e for m in ok for e in (".sav", ".omn")):
+            continue
+        d = os.path.join(probe_dir, "probe%d" % len(os.listdir(probe_dir)))
+        try:
+            os.makedirs(d)
+            for m in ok + [n]:
+                with open(os.path.join(d, m + ".sav"), "w") as f:
+                    f.write(m)
+            same = len(os.listdir(d)) == len(ok) + 1 and all(open(os.path.join(d, m + ".sav")).read() == m for m in ok + [n])
+        except (OSError, UnicodeError, ValueError):
+            same = False
+        if same:
+            ok.append(n)
+    return ok
+
+
+REF_ERRORS = []
+
+
+def named_reference(code, rs, cap=4000):
+    """The uninterrupted run of main() for the ruleset, with the places a quit can be delivered.  None unless every
+    pre-terminal of the run has its own probability (then the resumed queue has exactly one order, and each session's
+    outputs concatenate to the reference run EXACTLY) and some Markov level of >= 3 strings is followed by a further
+    pre-terminal (R18: a quit in the final pre-terminal is not saved)."""
+    r = common.run_main_driver(code, ["-r", rs["name"], "-s", "reference run"], cap=cap)
+    if r.get("error") or not r["pops"] or len(r.get("pop_at", [])) != len(r["pops"]):
+        REF_ERRORS.append(str(r.get("error")))
+        return None
+    probs = [p[1] for p in r["pops"]]
+    if len(set(probs)) != len(probs):
+        return None
+    out, at = r["out"], r["pop_at"] + [len(r["out"])]
+    segs = []                                   # (start, end, is_markov, pt)
+    for i, (pt, _) in enumerate(r["pops"]):
+        segs.append((at[i], at[i + 1], pt[0][0] == "M", [tuple(x) for x in pt]))
+    seg_of = {}
+    for i, (a, b, m, _) in enumerate(segs[:-1]):        # never the final pre-terminal
+        for g in range(a + 1, b + 1):                   # g = guesses written when the quit is raised
+            seg_of[g] = i
+    if not any(m and b - a >= 3 for (a, b, m, _) in segs[:-1]):
+        return None
+    return {"stream": out, "pops": [([tuple(x) for x in pt], pr) for pt, pr in r["pops"]], "segs": segs, "seg_of": seg_of}
+
+
+def stop_of(U, g):
+    """Where a run stops whose quit is raised right after guess g of the reference run: there if g is inside a Markov level,
+    at the end of the pre-terminal otherwise."""
+    a, b, m, _ = U["segs"][U["seg_of"][g]]
+    return g if m else b
+
+
+def gen_history(rng, U, names):
+    """Events [name, load, quit_after (guesses of THAT run) or None]: per session 1-3 quits at increasing places of its own,
+    mostly inside Markov levels, then --load to the end; all sessions are started before any is resumed, the rest is a
+    random interleaving."""
+    markov = [g for g, i in U["seg_of"].items() if U["segs"][i][2]]
+    anyg = sorted(U["seg_of"])
+    per, firsts = {}, set()
+    for n in names:
+        cuts, done = [], 0
+        for c in range(rng.randint(1, 3)):
+            pool = [g for g in (markov if rng.random() < (0.95 if c == 0 else 0.75) else anyg) if g > done]
+            if c == 0 and len(pool) > len(firsts):
+                pool = [g for g in pool if g not in firsts]       # sessions stop at different places
+            if not pool:
+                break
+            g = rng.choice(pool)
+            if c == 0:
+                firsts.add(g)
+            cuts.append(g - done)
+            done = stop_of(U, g)
+        per[n] = [[n, False, cuts[0]]] + [[n, True, q] for q in cuts[1:]] + [[n, True, None]]
+    order = list(names)
+    rng.shuffle(order)
+    events = [per[n].pop(0) for n in order]
+    while any(per.values()):
+        n = rng.choice([n for n in names if per[n]])
+        events.append(per[n].pop(0))
+    return events
+
+
+def run_history(code, rs, events, cap=4000):
+    return [common.run_main_driver(code, ["-r", rs["name"], "-s", n] + (["--load"] if load else []), quit_after_guesses=q, cap=cap)
+            for (n, load, q) in events]
+
+
+def judge_history(U, events, results, replay):
+    """Per session: every run emits exactly the next piece of the reference run; the first difference is reported (with the
+    sigs of `analyse`, which also judges the last interrupted / final pair as a whole)."""
+    vio, stats = [], Counter()
+    stream = U["stream"]
+    for name in dict.fromkeys(e[0] for e in events):
+        runs = [(k, e, results[k]) for k, e in enumerate(events) if e[0] == name]
+        emitted, pending, outs = 0, None, []
+        bad = False
+        for t, (k, (_, load, q), r) in enumerate(runs):
+            others = sorted(set(e[0] for e in events[:k] if e[0] != name))
+            ctx_txt = "session %r (run %d of it, event %d of the history; other sessions run before: %r)" % (name, t + 1, k + 1, others)
+            if r.get("error"):
+                vio.append({"sig": "C15:resume-raises" if load else "C15:interrupted-raises",
+                            "what": "named sessions through main(): %s failed: %s" % (ctx_txt, r["error"]), "replay": replay})
+                bad = True
+                break
+            if q is not None and emitted + q not in U["seg_of"]:
+                stats["sessions_not_judged_further"] += 1       # (only after an ordinary pre-terminal stopped elsewhere than scripted)
+                bad = True
+                break
+            end = len(stream) if q is None else stop_of(U, emitted + q)
+            want, got = stream[emitted:end], r["out"]
+            if q is not None and not U["segs"][U["seg_of"][emitted + q]][2] and emitted + q <= emitted + len(got) <= end \
+                    and emitted + len(got) in U["seg_of"] and got == want[:len(got)]:
+                # the property does not say where a quit inside an ORDINARY pre-terminal takes effect (today: at its end)
+                end = emitted + len(got)
+                want = got
+            if got != want:
+                if pending is not None:
+                    a, b = pending
+                    rem = stream[emitted:b]
+                    n = len(rem) if q is None else min(len(rem), q)
+                    first, wfirst = got[:n], rem[:n]
+                else:
+                    first = wfirst = None
+                if first != wfirst:
+                    before = set(stream[a:emitted])
+                    rep = [x for x in first if x in before]
+                    skipped = [x for x in wfirst if x not in set(first)]
+                    vio.append({"sig": "C15:remainder:" + ("repeated" if rep else "skipped" if skipped else "order"),
+                                "what": "named sessions through main(): %s was quit after guess %d of a Markov level of %d strings and resumed with "
+                                        "--load: it starts with %r..., the remainder of its level is %d strings %r...; repeated %r skipped %r"
+                                        % (ctx_txt, emitted - a, b - a, first[:3], len(rem), rem[:3], rep[:2], skipped[:2]), "replay": replay})
+                else:
+                    i = next((x for x in range(min(len(got), len(want))) if got[x] != want[x]), min(len(got), len(want)))
+                    vio.append({"sig": "C15:named-session:stream",
+                                "what": "named sessions through main(): %s emitted %d guesses, the next piece of the uninterrupted run has %d; first "
+                                        "difference at its guess %d: %r, expected %r"
+                                        % (ctx_txt, len(got), len(want), i + 1, got[i] if i < len(got) else None, want[i] if i < len(want) else None),
+                                "replay": replay})
+                bad = True
+                break
+            outs.append(got)
+            before_last = (emitted, pending)
+            emitted = end
+            stats["runs_ok"] += 1
+            pending = None
+            if q is not None:
+                a, b, m, _ = U["segs"][U["seg_of"][end]]
+                pending = (a, b) if m else None
+                stats["quit_in_markov_level" if m else "quit_in_ordinary_preterminal"] += 1
+        if bad:
+            continue
+        # the judge of the single-session histories on (everything before the last resume, the last resume)
+        if len(runs) >= 2 and runs[-1][1][2] is None and before_last[1] is not None:
+            j = before_last[0] - 1              # index of the last guess written before the final resume
+            a, b = before_last[1]
+            last = runs[-1][2]
+            idx = U["seg_of"][j + 1]
+            U2 = {"stream": stream, "pops": U["pops"], "level_pop_index": idx}
+            R1 = {"stream": [x for o in outs[:-1] for x in o], "error": None}
+            at = last.get("pop_at") or []
+            R2 = {"stream": last["out"], "error": None, "restored": at[0] if at else len(last["out"]),
+                  "pops": [([tuple(x) for x in pt], pr) for pt, pr in last["pops"]]}
+            v, kind = analyse(U2, j, a, b, U["segs"][idx][3], R1, R2, replay)
+            vio += v
+            stats["final_pair_" + kind] += 1
+    return vio, stats
+
+
+def interleaved_resumes(U, events):
+    """Resumed runs of a session interrupted inside a Markov level BETWEEN whose interruption and resume another session
+    was interrupted inside a Markov level (the histories where a shared position file would show)."""
+    n, pos, last_markov_quit = 0, {}, {}
+    for k, (name, load, q) in enumerate(events):
+        if load and name in last_markov_quit and any(k2 > last_markov_quit[name] for m, k2 in last_markov_quit.items() if m != name):
+            n += 1
+        if q is not None:
+            end = stop_of(U, pos.get(name, 0) + q)
+            pos[name] = end
+            if U["segs"][U["seg_of"][end]][2]:
+                last_markov_quit[name] = k
+            else:
+                last_markov_quit.pop(name, None)
+        else:
+            last_markov_quit.pop(name, None)
+    return n
+
+
+def gen_named_ruleset(rng, idx):
+    """gen_case, the Markov base structure mostly moved to the most probable line (the first pre-terminals are Markov levels)."""
+    rs, om, buckets = gen_case(rng, idx)
+    rs["name"] = "N%d" % idx
+    if rng.random() < 0.7:
+        structs = [s for s, _ in rs["grammar"]]
+        ps = [p for _, p in rs["grammar"]]
+        structs.remove("M")
+        rs["grammar"] = list(zip(["M"] + structs, ps))
+    return rs
+
+
+def named_sessions(ctx, dist, samples):
+    """The stage: rulesets x name families x interleaved histories, each history in its own scratch copy of the code tree."""
+    vio, evaluations, nontrivial = [], 0, 0
+    nrs, nhist = ctx.scale(*NAMED_RULESETS), ctx.scale(4, 6)
+    probe = common.scratch()
+    pre = common.scratch()
+    tries, jobs = 0, []
+    for i in range(nrs):
+        U = None
+        while U is None and tries < 60 * nrs:
+            tries += 1
+            rs = gen_named_ruleset(ctx.rng, i)
+            # cheap look at the run in this process first (same conditions as named_reference)
+            rd = os.path.join(pre, "Rules", rs["name"])
+            shutil.rmtree(rd, ignore_errors=True)
+            rulesets.write_ruleset(rs, rd)
+            P = run_session(rs, rd, os.path.join(pre, "pre.sav"), False, cap=1500)
+            pp = [p for p in P["pops"] if p is not None]
+            if P["error"] or len(set(p[1] for p in pp)) != len(pp):
+                continue
+            dist["named_reference_runs"] += 1
+            code = common.copy_code_tree(common.scratch())
+            rulesets.write_ruleset(rs, os.path.join(code, "Rules", rs["name"]))
+            U = named_reference(code, rs)
+            shutil.rmtree(code, ignore_errors=True)
+        if U is None:
+            break
+        dist["named_rulesets"] += 1
+        for h in range(nhist):
+            kind, fam = name_family(ctx.rng)
+            names = usable_names(fam, probe)
+            dist["named_names_refused_by_os_or_rule"] += len(fam) - len(names)
+            if len(names) < 2:
+                continue
+            names = names[:3] if ctx.rng.random() < 0.35 else names[:2]
+            jobs.append((rs, U, kind, names, gen_history(ctx.rng, U, names)))
+
+    def execute(job):
+        rs, U, kind, names, events = job
+        code = common.copy_code_tree(common.scratch())
+        try:
+            rulesets.write_ruleset(rs, os.path.join(code, "Rules", rs["name"]))
+            return run_history(code, rs, events)
+        finally:
+            shutil.rmtree(code, ignore_errors=True)
+    # the histories are independent (a code copy each): a few at a time
+    from concurrent.futures import ThreadPoolExecutor
+    with ThreadPoolExecutor(max_workers=max(1, min(6, common.NCPU // 3))) as pool:
+        all_results = list(pool.map(execute, jobs))
+    for (rs, U, kind, names, events), results in zip(jobs, all_results):
+        replay = {"ruleset": rs, "cli": "named-sessions", "events": events}
+        v, stats = judge_history(U, events, results, replay)
+        vio += v
+        il = interleaved_resumes(U, events)
+        dist["named_histories"] += 1
+        dist["named_histories_%d_sessions" % len(names)] += 1
+        dist["named_family_" + kind] += 1
+        dist["named_runs"] += len(events)
+        dist["named_interleaved_resumes"] += il
+        for k2, c in stats.items():
+            dist["named_" + k2] += c
+        evaluations += len(names)
+        nontrivial += 1 if il else 0
+        if len([x for x in samples if "named_sessions" in x]) < 2 and il:
+            samples.append({"named_sessions": names, "events": events, "reference_guesses": len(U["stream"]),
+                            "markov_levels": [(a, b) for (a, b, m, _) in U["segs"] if m]})
+    return vio, evaluations, nontrivial
+
+
+def named_replay(inp):
+    rs, events = inp["ruleset"], [list(e) for e in inp["events"]]
+    code = common.copy_code_tree(common.scratch())
+    rulesets.write_ruleset(rs, os.path.join(code, "Rules", rs["name"]))
+    U = named_reference(code, rs)
+    if U is None:
+        return []
+    code2 = common.copy_code_tree(common.scratch())
+    rulesets.write_ruleset(rs, os.path.join(code2, "Rules", rs["name"]))
+    results = run_history(code2, rs, events)
+    return judge_history(U, events, results, inp)[0]
+
+
 HEADER = ["From Coq Require Import List Bool NArith ZArith.", "From Pcfg Require Import OmenSpec Omen OmenCorr.",
           "From PcfgGen Require Import Consts_gen.", "Import ListNotations.", "Open Scope nat_scope."]
 
@@ -644,12 +999,22 @@ def run(ctx):
     two_cases = []
     ms_rulesets = []
     evaluations = nontrivial = 0
+    import time
+    t_explore = time.time()
     for i in range(nrs):
         rs, om, buckets = gen_case(ctx.rng, i)
         v, e, n = explore(ctx, rs, om, buckets, sc, dist, cases, samples, max_cuts, two_cases, ms_rulesets)
         vio += v
         evaluations += e
         nontrivial += n
+    # ---- named sessions interleaved through the real pcfg_guesser.main()
+    t_named = time.time()
+    v, e, n = named_sessions(ctx, dist, samples)
+    dist["named_wall_s"] = round(time.time() - t_named, 1)
+    dist["explore_wall_s"] = round(t_named - t_explore, 1)
+    vio += v
+    evaluations += e
+    nontrivial += n
     # ---- correspondence: pickled state = model state; continuation with an empty cache = what the resumed run emitted
     nsh = min(len(cases), common.NCPU) or 1
     shards = []
@@ -727,10 +1092,22 @@ def run(ctx):
             "per level a second quit (inside the remainder / outside the level) and a third run: no replay; non-trivial = the cut is "
             "strictly inside the level; distinct by (ruleset, cut list); every such cut is also run through the combined session model "
             "MarkovSession.v (interrupted output, saved max_probability / omen_guess_number / .omn, resumed output and pop sequence "
-            "compared exactly, the model's queue following the implementation inside groups of equal probability)")
+            "compared exactly, the model's queue following the implementation inside groups of equal probability); named sessions: "
+            "rulesets of the same generator (Markov base structure mostly the most probable line) whose uninterrupted run through the real "
+            "pcfg_guesser.main() has no two pre-terminals of equal probability, 2-3 sessions under names of one confusable family (equal "
+            "up to the last 1-3 characters with and without a dot before them, extension-like suffixes .sav/.omn, several / leading / "
+            "trailing dots, prefixes of each other, spaces, case, non-ASCII letters), each session quit 1-3 times at places of its own "
+            "(mostly inside Markov levels) and resumed with --load, the sessions' runs interleaved; oracle: every run of a session emits "
+            "exactly the next piece of the reference run (so the restored part is the remainder of ITS level), plus the single-session "
+            "judge on the final resume; non-trivial = a session is resumed after ANOTHER session was interrupted inside a Markov level "
+            "since its own interruption")
     # translator tie of the session-level bookkeeping (_save_session = sess_quit, the --load prologue = sess_restore)
     import session_tie
     corr.append(session_tie.obligation("session"))
+    # the named-sessions stage must have had its rulesets (an uninterrupted main() that fails is not a reason to skip it)
+    corr.append(("named-sessions:explored", dist.get("named_rulesets", 0) == ctx.scale(*NAMED_RULESETS) and dist.get("named_histories", 0) > 0,
+                 "%d of %d rulesets with a usable uninterrupted run of pcfg_guesser.main(); last failures: %r"
+                 % (dist.get("named_rulesets", 0), ctx.scale(*NAMED_RULESETS), REF_ERRORS[-3:])))
     return {"evaluations": evaluations, "distinct_nontrivial": nontrivial, "rule": rule, "samples": samples,
             "corr": corr, "violations": vio, "dist": dict(dist)}
 
@@ -747,6 +1124,8 @@ def replay(ctx, data):
         rs["files"][k] = [tuple(x) for x in rs["files"][k]]
     for k in ("grammar", "prince", "omen_prob"):
         rs[k] = [tuple(x) for x in rs[k]]
+    if inp.get("cli") == "named-sessions":
+        return named_replay(inp)
     sc = common.scratch()
     rd = os.path.join(sc, "Rules", rs["name"])
     rulesets.write_ruleset(rs, rd)
